@@ -287,6 +287,11 @@ def callee_names(t):
     return {x for x in (t.get("callee"), t.get("resolved")) if x}
 
 
+def names_strip(s):
+    from . import names as _n
+    return _n.strip_generics(s)
+
+
 class _MovedDict(dict):
     """items by definition path; a path that does not exist (the item was moved to another module of its crate) resolves to
     the unique item of the same crate whose trailing identifiers agree — `tail` identifiers are compared (1 for types and
@@ -484,6 +489,46 @@ class Program:
                     out.append(b)
         return out
 
+    def instantiated_callee_bodies(self, t):
+        """Workspace bodies entered *inside* a generic workspace callee because of this call's type arguments: the facts are
+        read from generic MIR, where `x.into()` on a type parameter is an unresolved trait call; at a call site that fixes the
+        parameter (`f::<u8>(..)`) the call resolves to an impl (`From<u8> for Target`).  One level, conversions and inherent
+        trait methods of workspace types."""
+        ga = [g for g in (t.get("gargs") or []) if g and not g.startswith("'")]
+        ck = (t.get("resolved_id"), t.get("callee_id"), tuple(ga))
+        cache = self.__dict__.setdefault("_inst_cache", {})
+        if ck in cache:
+            return cache[ck]
+        out = cache[ck] = []
+        if not ga:
+            return out
+        for g in self.local_callee_bodies(t):
+            gp = [x for x in (g.j.get("generics") or []) if x and not x.startswith("'")]
+            if not gp or len(gp) > len(ga):
+                continue
+            sub_ = dict(zip(gp, ga[len(ga) - len(gp):]))
+            for nb in self.nested(g.path) if hasattr(self, "nested") else [g]:
+                for bb2, t2 in nb.calls():
+                    it = t2.get("callee_item") or {}
+                    g2 = [x for x in (t2.get("gargs") or []) if x and not x.startswith("'")]
+                    if it.get("container") != "trait" or not g2 or g2[0] not in sub_:
+                        continue
+                    self_ty = sub_[g2[0]]
+                    tr, meth = it.get("trait") or "", (t2.get("callee") or "").rsplit("::", 1)[-1]
+                    if tr.endswith("convert::Into") and meth == "into" and len(g2) >= 2:
+                        want = [(names_strip(g2[1]), "core::convert::From", "from", self_ty)]
+                    elif tr.endswith("convert::TryInto") and meth == "try_into" and len(g2) >= 2:
+                        want = [(names_strip(g2[1]), "core::convert::TryFrom", "try_from", self_ty)]
+                    else:
+                        want = [(names_strip(self_ty), tr, meth, None)]
+                    for adt, tr_, m_, argty in want:
+                        for b2 in self.methods.get((adt, tr_, m_), []):
+                            if argty is not None and (b2.j["locals"][1].get("ty") or "").replace(" ", "") != argty.replace(" ", ""):
+                                continue
+                            if b2 not in out:
+                                out.append(b2)
+        return out
+
     def closure_defs_in(self, body):
         """def paths of closures/coroutines constructed in `body`."""
         out = []
@@ -509,6 +554,7 @@ class Program:
             nxt = []
             for bb, t in b.calls():
                 nxt.extend(self.local_callee_bodies(t))
+                nxt.extend(self.instantiated_callee_bodies(t))
             for bb2, s2 in b.stmts():
                 if s2["k"] == "assign" and s2["rv"]["k"] == "agg" and s2["rv"].get("ak") in ("closure", "coroutine", "coroutine_closure"):
                     cb2 = self.by_id.get(s2["rv"].get("def_id")) or self.bodies.get(s2["rv"]["def"])
